@@ -341,7 +341,9 @@ func RunC13(seed int64, tier, out string) {
 		rounds, muts = 30, 40
 	}
 	try := func(k *Kind, class string, bs []byte) {
+		hx.Inflight(out, k.Name+".Decode", class, fmt.Sprintf("%x", bs))
 		o, t, rest, perr := Decode(k, bs)
+		hx.InflightDone(out)
 		idx := w.add(hx.App("CDec", k.Name, hx.Hex(bs), obsTerm(k, o, t, rest)))
 		res.CaseIndex = append(res.CaseIndex, k.Name+"/"+class)
 		res.Count(k.Name+"/"+class, o, fmt.Sprintf("%s/%s/%s/%d", k.Name, class, o, len(bs)/16), class == "random")
